@@ -13,6 +13,10 @@ search : oracle independent of the model: direct boolean selection on the full
          observable`, fresh twin object, global restore, `set_window(window())`,
          objects nested on the library's own arrays, power-of-two rescaled twins,
          shuffled anomalies, selected phases / months incl. wrapping and error cases
+round 4: `shuffled_anomaly()` on the recorded raw draw stream (the model runs NumPy's masked
+         rejection sampling and Fisher-Yates itself; matrix and number of draws compared exactly),
+         proved rounding bounds instead of tolerances in the oracle, masked / packed NetCDF
+         variables on the Dataset stand-in
 round 3: the cache counter after every step (`cs`), `int(T / time_cycle)` against the source
          expression evaluated by CPython (`ry`), objects loaded with Data.Load /
          ClimateData.Load through an in-memory Dataset stand-in (`runreg`), huge time stamps
@@ -57,12 +61,15 @@ def enc_mat(m, shape=None):
     return f"{r}x{c}:{body}"
 
 
-def enc_pm(pm):
+def enc_pm(pm, empty_from=None):
+    """`empty_from`: phases from this number on have no sample; their rows are unspecified by
+    the property (NaN for ndarray observables, 0 for the masked arrays netCDF4 hands out) and are
+    written as `nan` like the model's"""
     pm = np.asarray(pm)
     r, c = pm.shape
     rows = []
-    for row in pm:
-        if c and np.all(np.isnan(row)):
+    for i, row in enumerate(pm):
+        if c and (np.all(np.isnan(row)) or (empty_from is not None and i >= empty_from)):
             rows.append("nan")
         else:
             rows.append(enc_vec(row))
@@ -98,8 +105,56 @@ def tol_of(case, exact):
     return TOL, 1
 
 
+def rounding_units(case, exact):
+    """(u, ud): relative error of one + / - and of the division by the sample count in the
+    arithmetic NumPy uses for this observable (0 on the exact-integer stream, where every mean
+    is an integer below 2^24).  float32 observables: the sum is accumulated in float32, and the
+    division by the intp count is carried out in double and rounded to float32 again."""
+    if exact:
+        return Fraction(0), Fraction(0)
+    if case["dtype"] == "float32":
+        return Fraction(1, 2 ** 24), Fraction(1, 2 ** 24) + Fraction(1, 2 ** 52)
+    return Fraction(1, 2 ** 53), Fraction(1, 2 ** 53)
+
+
+SHUFFLE_RELAXED = [0]
+
+
+def _columns_sorted(piece):
+    """`TxN:rows@k` -> shape and the sorted columns (what the property fixes of a shuffle)"""
+    head = piece.rsplit("@", 1)[0]
+    shape, body = head.split(":", 1)
+    rows = [] if body == "-" else [[Fraction(x) for x in r.split(",")] for r in body.split(";")]
+    return shape + ":" + ";".join(",".join(map(str, sorted(col))) for col in zip(*rows))
+
+
 def same(model, impl, tol, scale=1):
-    """structure identical, numbers equal (tol = 0) or within tol"""
+    """structure identical, numbers equal (tol = 0) or within tol.
+    `shuffled_anomaly()` (pieces `...@k`): the model runs NumPy's Fisher-Yates on the recorded raw
+    stream, so normally the matrices and the number of draws agree exactly.  A library that
+    shuffles in another way (other use of the draws) still satisfies the property as long as
+    every column is a rearrangement: such a difference is counted
+    (`shuffle:differs-from-fisher-yates-model`), not reported."""
+    if model == impl:
+        return True
+    if "@" in model and "@" in impl:
+        a, b = model.split("|"), impl.split("|")
+        if len(a) == len(b):
+            changed = False
+            for k, (x, y) in enumerate(zip(a, b)):
+                if x != y and "@" in x and "@" in y and not _same_plain(x, y, tol, scale):
+                    try:
+                        a[k], b[k] = _columns_sorted(x), _columns_sorted(y)
+                    except (ValueError, IndexError):
+                        continue
+                    changed = True
+            if changed:
+                SHUFFLE_RELAXED[0] += 1
+                return _same_plain("|".join(a), "|".join(b), tol, scale)
+    return _same_plain(model, impl, tol, scale)
+
+
+def _same_plain(model, impl, tol, scale=1):
     if model == impl:
         return True
     if tol == 0:
@@ -133,12 +188,31 @@ def is_load(case):
 
 
 class FakeVar:
-    """stand-in for a NetCDF variable: `var[:]` is the array, `.long_name`, `len(var)`"""
-    def __init__(self, a, long_name="a long name"):
+    """stand-in for a NetCDF variable: `var[:]` is the array, `.long_name`, `len(var)`.
+    Round 4: like `netCDF4.Variable` with its default `set_auto_maskandscale(True)` a variable
+    may be *packed* (integer storage with `scale_factor` / `add_offset` attributes, unpacked on
+    access as `raw * scale_factor + add_offset`) and is then returned as a
+    `numpy.ma.MaskedArray` (entries equal to `_FillValue` masked; `masked=True` alone = the
+    always-masked default of netCDF4 for a variable without missing values)"""
+    def __init__(self, a, long_name="a long name", masked=False, scale_factor=None,
+                 add_offset=None, fill=None):
         self._a, self.long_name = np.asarray(a), long_name
+        self._masked = masked or scale_factor is not None or fill is not None
+        if scale_factor is not None:
+            self.scale_factor, self.add_offset = scale_factor, add_offset
+        if fill is not None:
+            self._FillValue = fill
 
     def __getitem__(self, key):
-        return self._a[key]
+        a = self._a[key]
+        if not self._masked:
+            return a
+        mask = np.ma.nomask
+        if hasattr(self, "_FillValue"):
+            mask = a == self._FillValue
+        if hasattr(self, "scale_factor"):
+            a = a * self.scale_factor + self.add_offset
+        return np.ma.MaskedArray(a, mask=mask)
 
     def __len__(self):
         return len(self._a)
@@ -181,13 +255,29 @@ def load_obj(case, window):
         big[:, 0 if level is None else level] = arr
         arr = big
     names = ld["names"]
-    variables = {"obsvar": FakeVar(arr), names["time"]: FakeVar(np.array(case["time"]))}
-    if ld["ftype"] == "NetCDF":
-        variables[names["lat"]] = FakeVar(np.array(ld["latg"]))
-        variables[names["lon"]] = FakeVar(np.array(ld["long"]))
+    store = ld.get("store", "plain")
+    mk = store != "plain"       # netCDF4 hands out masked arrays for every variable by default
+    if store == "packed":
+        # integer storage: raw * scale_factor + add_offset reproduces the values exactly
+        # (scale_factor = L / 2^m, add_offset = L * k; all products exact in double)
+        L, m, k = ld["pack"]
+        raw = (arr / L - k) * 2 ** m
+        assert np.all(raw == np.round(raw)) and np.abs(raw).max() < 32767 or ld["nlev"]
+        if ld["nlev"]:
+            raw = np.where(arr == 12345.0, -32768, raw)     # the filler planes are "missing"
+            obsvar = FakeVar(raw.astype("int16"), scale_factor=L / 2 ** m, add_offset=float(L * k),
+                             fill=-32768)
+        else:
+            obsvar = FakeVar(raw.astype("int16"), scale_factor=L / 2 ** m, add_offset=float(L * k))
     else:
-        variables["grid_center_lat"] = FakeVar(np.array(case["lat"]))
-        variables["grid_center_lon"] = FakeVar(np.array(case["lon"]))
+        obsvar = FakeVar(arr, masked=mk)
+    variables = {"obsvar": obsvar, names["time"]: FakeVar(np.array(case["time"]), masked=mk)}
+    if ld["ftype"] == "NetCDF":
+        variables[names["lat"]] = FakeVar(np.array(ld["latg"]), masked=mk)
+        variables[names["lon"]] = FakeVar(np.array(ld["long"]), masked=mk)
+    else:
+        variables["grid_center_lat"] = FakeVar(np.array(case["lat"]), masked=mk)
+        variables["grid_center_lon"] = FakeVar(np.array(case["lon"]), masked=mk)
     FakeDataset.files["mem.nc"] = variables
     old = getattr(data_mod, "Dataset", None)
     data_mod.Dataset = FakeDataset
@@ -280,16 +370,46 @@ def nest_obj(case, obj):
                        silence_level=2)
 
 
-def shuffle_perms(seed, T, N):
-    """the permutations `numpy.random.shuffle` applies to N successive float arrays of
-    length T after `numpy.random.seed(seed)` (the draws depend on the length only)"""
+def _mt_raw(state, L):
+    """the next L raw 32-bit outputs of the legacy generator in the given state"""
+    bg = np.random.MT19937()
+    bg.state = {"bit_generator": "MT19937", "state": {"key": state[1], "pos": state[2]}}
+    return [int(x) for x in bg.random_raw(L)]
+
+
+def raw_stream(seed, L):
+    """the raw 32-bit output stream of `numpy.random` after `numpy.random.seed(seed)`"""
     np.random.seed(seed)
-    perms = []
+    return _mt_raw(np.random.get_state(), L)
+
+
+def draws_consumed(ds, T, N):
+    """number of raw outputs N successive shuffles of arrays of length T take from the stream
+    (masked rejection sampling: a draw is used up whether accepted or not).  Only used to cut
+    the recorded stream to the length to send; the model decides on its own how many it takes."""
+    k = 0
     for _ in range(N):
-        p = np.arange(T, dtype=float)
-        np.random.shuffle(p)
-        perms.append([int(x) for x in p])
-    return perms
+        for i in range(T - 1, 0, -1):
+            mask = (1 << i.bit_length()) - 1
+            while ds[k] & mask > i:
+                k += 1
+            k += 1
+    return k
+
+
+def shuffle_request(seed, T, N):
+    """(token for the model, raw output the generator must produce next after the call)"""
+    L = 64 + 6 * T * N
+    while True:
+        ds = raw_stream(seed, L)
+        try:
+            k = draws_consumed(ds, T, N)
+            if k < L:
+                break
+        except IndexError:
+            pass
+        L *= 2
+    return "shr=" + (",".join(map(str, ds[:k + 1])) or "-"), ds[k]
 
 
 def ints_of(s):
@@ -321,6 +441,8 @@ def do_op(obj, tok, case):
                 w = obj.window()
                 return enc_vec([w[k] for k in WKEYS])
             if tok == "pm":
+                if is_load(case) and case["load"].get("store", "plain") != "plain":
+                    return enc_pm(obj.phase_mean(), empty_from=obj.observable().shape[0])
                 return enc_pm(obj.phase_mean())
             if tok == "an":
                 return enc_mat(obj.anomaly())
@@ -462,25 +584,36 @@ def _check_state(ctx, case, obj, view, upto, exact, after):
         if pi.tolist() != exp_pi:
             ok = bad("phase_indices", "value", "phase_indices() are not the complete-year indices "
                      "of each phase", observed=pi.tolist(), expected=exp_pi)
-    tol = Fraction(tol_of(case, exact)[0])
-    scale = max([1] + [abs(x) for r in view["obs"] for x in r])
-
-    def close(a, b):
-        return abs(a - b) <= tol * scale
+    # Round 4: no chosen tolerance.  On the exact-integer stream the values must be equal; on
+    # the other stream the deviations are bounded by the *theorems* float_phase_mean_error,
+    # float_anomaly_phase_mean_error and float_addback_error (standard model, any order of
+    # summation), evaluated here in exact arithmetic on the values the real code returned.
+    u, ud = rounding_units(case, exact)
 
     # --- phase means are the means of the samples of each phase
     if pm.shape == (c, Nn):
         for i in range(c):
             rows = view["obs"][i::c]
             if not rows:
-                if not np.all(np.isnan(pm[i])):
+                # (the row of a phase without samples is NaN for ndarray observables; for the
+                # masked arrays of a NetCDF file NumPy stores 0 -- the property does not say)
+                if not np.all(np.isnan(pm[i])) and not np.ma.isMaskedArray(obj.observable()):
                     ok = bad("phase_mean", "value", f"phase {i} has no sample but a finite mean")
                 continue
+            k = len(rows)
             for j in range(Nn):
-                m = sum(r[j] for r in rows) / len(rows)
-                if math.isnan(pm[i, j]) or not close(fr(pm[i, j]), m):
+                m = sum(r[j] for r in rows) / k
+                bound = ((1 + u) ** (k - 1) * (1 + ud) - 1) * sum(abs(r[j]) for r in rows) / k
+                if (not exact and not math.isnan(pm[i, j]) and fr(pm[i, j]) != m and bound > 0
+                        and hasattr(ctx, "extra")):
+                    ctx.count("float-bound:phase_mean-entries-actually-rounded")
+                    ctx.extra["max_error_over_bound_phase_mean"] = max(
+                        ctx.extra.get("max_error_over_bound_phase_mean", 0.0),
+                        float(abs(fr(pm[i, j]) - m) / bound))
+                if math.isnan(pm[i, j]) or abs(fr(pm[i, j]) - m) > bound:
                     ok = bad("phase_mean", "value",
-                             f"phase_mean()[{i},{j}] = {pm[i, j]}, mean of the phase samples is {float(m)}")
+                             f"phase_mean()[{i},{j}] = {pm[i, j]}, mean of the phase samples is {float(m)}"
+                             + ("" if exact else f" (proved rounding bound {float(bound):.3g})"))
                     break
     if flag:
         # data are declared anomalies: anomaly() is the windowed observable
@@ -488,27 +621,40 @@ def _check_state(ctx, case, obj, view, upto, exact, after):
             ok = bad("anomaly", "value", "anomalies=True: anomaly() differs from observable()")
         return ok
     A = frac_mat(an)
+    if pm.shape != (c, Nn):
+        return ok
     for i in range(c):
-        rows = A[i::c]
+        rows, xs = A[i::c], view["obs"][i::c]
         if not rows:
             continue
+        k = len(rows)
         for j in range(Nn):
-            m = sum(r[j] for r in rows) / len(rows)
-            if not close(m, 0):
+            if math.isnan(pm[i, j]):
+                break       # reported above
+            p = fr(pm[i, j])
+            m = sum(r[j] for r in rows) / k
+            bound = abs(sum(x[j] for x in xs) / k - p) + u * sum(abs(x[j] - p) for x in xs) / k
+            if abs(m) > bound:
                 ok = bad("anomaly", "zero-mean",
-                         f"mean of anomaly() over phase {i}, node {j} is {float(m)}")
+                         f"mean of anomaly() over phase {i}, node {j} is {float(m)}"
+                         + ("" if exact else f" (proved rounding bound {float(bound):.3g})"))
                 break
-    if pm.shape == (c, Nn):
-        for t in range(Tn):
-            for j in range(Nn):
-                p = pm[t % c, j]
-                if math.isnan(p) or not close(A[t][j] + fr(p), view["obs"][t][j]):
-                    ok = bad("anomaly", "add-back",
-                             f"anomaly()[{t},{j}] + phase_mean()[{t % c},{j}] != observable()[{t},{j}]")
-                    break
-            else:
-                continue
-            break
+    for t in range(Tn):
+        for j in range(Nn):
+            p = pm[t % c, j]
+            if (not exact and not math.isnan(p) and A[t][j] + fr(p) != view["obs"][t][j]
+                    and view["obs"][t][j] != fr(p) and hasattr(ctx, "extra")):
+                ctx.count("float-bound:add-back-entries-actually-rounded")
+                ctx.extra["max_error_over_bound_add_back"] = max(
+                    ctx.extra.get("max_error_over_bound_add_back", 0.0),
+                    float(abs(A[t][j] + fr(p) - view["obs"][t][j]) / (u * abs(view["obs"][t][j] - fr(p)))))
+            if math.isnan(p) or abs(A[t][j] + fr(p) - view["obs"][t][j]) > u * abs(view["obs"][t][j] - fr(p)):
+                ok = bad("anomaly", "add-back",
+                         f"anomaly()[{t},{j}] + phase_mean()[{t % c},{j}] != observable()[{t},{j}]")
+                break
+        else:
+            continue
+        break
     return ok
 
 
@@ -558,6 +704,7 @@ def check_shuffled(ctx, case, obj, view, tok, out, upto):
     """shuffled_anomaly(): shape of anomaly(), every column a rearrangement of the column"""
     with quiet():
         an = np.asarray(obj.anomaly())
+    out = out.split("@")[0]
     rows = [] if out.split(":", 1)[1] == "-" else out.split(":", 1)[1].split(";")
     shape = tuple(int(x) for x in out.split(":", 1)[0].split("x"))
     ok = shape == an.shape
@@ -590,6 +737,10 @@ def twin_check(ctx, case, obj, base, w, upto):
         return False
     for nm, a, b in pairs:
         a, b = np.asarray(a), np.asarray(b)
+        if nm == "phase_mean" and a.shape == b.shape and np.ma.isMaskedArray(pairs[0][1]):
+            # rows of phases without samples are unspecified (0 for masked observables, NaN for
+            # the twin's plain array): compare the phases that have samples
+            a, b = a[:pairs[0][1].shape[0]], b[:pairs[0][1].shape[0]]
         if a.shape != b.shape or not np.array_equal(a, b, equal_nan=True):
             ctx.fail({"class": case["cls"], "method": nm, "kind": "stale",
                       "anomalies_flag": bool(case["flag"])},
@@ -683,9 +834,16 @@ def run_case(ctx, case, exact, oracle=True):
         out = do_op(obj, tok, case)
         outs.append(out)
         if tok.startswith("sh:"):
+            # round 4: the model gets the raw 32-bit output stream of the generator (exactly the
+            # draws the call uses up plus one) and runs the masked rejection sampling and the
+            # Fisher-Yates loops itself; "@1" = the generator of the real call stands exactly
+            # where the model says (its next raw output is the one draw left over)
             T, N = len(view["time"]), len(view["lat"])
-            concrete.append("sh=" + ";".join(",".join(map(str, p))
-                                             for p in shuffle_perms(int(tok[3:]), T, N)))
+            nxt = _mt_raw(np.random.get_state(), 1)[0]
+            req, expect = shuffle_request(int(tok[3:]), T, N)
+            concrete.append(req)
+            if not out.startswith("raise:"):
+                outs[-1] = out + ("@1" if nxt == expect else "@generator-elsewhere")
         else:
             concrete.append(tok)
         if not oracle:
@@ -996,6 +1154,10 @@ def gen_load_case(ctx, rng):
     if rng.random() < 0.3:
         names = {"lat": "latitude", "lon": "longitude", "time": "t"}
     climate = cls == "LoadClimate"
+    # round 4: how the file stores the variable (what netCDF4 hands out for it)
+    store = rng.choice(["plain", "masked", "packed", "packed"])
+    pack = (L, rng.randrange(0, 10), rng.randrange(-5, 6))
+    ctx.count(f"load:storage:{store}")
 
     def win():
         j, i0, i1 = rng.randrange(N), rng.randrange(T), rng.randrange(T)
@@ -1018,7 +1180,7 @@ def gen_load_case(ctx, rng):
             "obs": obs, "dtype": "float32", "ops": ops, "gdtype": "float32", "layout": "C",
             "btype": rng.choice(["float", "int", "np32", "mixed"]), "scale": None,
             "load": {"ftype": ftype, "latg": latg, "long": long, "nlev": nlev, "level": level,
-                     "names": names}}
+                     "names": names, "store": store, "pack": pack}}
 
 
 def edge_cases():
@@ -1110,8 +1272,10 @@ def run(ctx):
         "float32-exact values: modelled as their mathematical operations on rationals",
         "functools.lru_cache keyed by (id, _mut_window): modelled as an association list with "
         "arbitrary eviction",
-        "numpy.random.shuffle applies a permutation that depends only on the generator state and the "
-        "length (the harness replays it on range(T) and sends the permutation to the model)",
+        "numpy.random.shuffle = masked rejection sampling (random_interval) + Fisher-Yates on the raw "
+        "32-bit outputs of MT19937 (modelled; the harness records the raw stream after "
+        "numpy.random.seed and the model's result, incl. the number of outputs used up, is compared "
+        "exactly with the real call on every run); MT19937 itself is not modelled",
         "CPython's int / int true division returns the double nearest to the exact quotient "
         "(modelled by rn53; that int(T / time_cycle) then equals T // time_cycle for T < 2^53 is the "
         "theorem rangeYearsF_eq, and the model is compared with the source expression on every run)",
@@ -1188,6 +1352,9 @@ def run(ctx):
         f"correspondence: Lean Window model == Data/ClimateData histories ({len(reqs)} requests)",
         "correspondence", not bad,
         "\n".join(f"{reqs[i][:300]} :: {first_diff(i)}" for i in bad[:5]))
+    ctx.count("shuffle:differs-from-fisher-yates-model", 0)
+    if SHUFFLE_RELAXED[0]:
+        ctx.count("shuffle:differs-from-fisher-yates-model", SHUFFLE_RELAXED[0])
     ctx.extra["requests_compared"] = len(reqs)
     ctx.extra["operations_compared"] = sum(len(c["ops"]) + 1 for c, _ in cases)
 
